@@ -92,3 +92,12 @@ for d in /verif/seeded/S7-C*; do
   esac
   m $d/patch.diff $p $extra
 done
+# round 8
+for d in /verif/seeded/S8-C*; do
+  s=$(basename $d); p=${s#S8-}; p=${p%%-*}
+  extra=""
+  case $s in
+    S8-C03-1) extra="C12";;
+  esac
+  m $d/patch.diff $p $extra
+done
